@@ -199,7 +199,7 @@ def get_log_level(cli_level: int) -> Loglevel:
     level = Loglevel.INFO
     if cli_level == 1:
         level = Loglevel.DEBUG
-    elif cli_level == 2:
+    elif cli_level >= 2:
         level = Loglevel.TRACE
     return level
 
